@@ -114,6 +114,9 @@ type Genesis struct {
 	ForkHeight  int64
 	NilForks    bool
 	DevMode     bool
+	// LegacyFork > 0: the genesis document carries the fork height in the legacy field
+	// (forkHeights.checkInUpdate) only; the application has to migrate it itself
+	LegacyFork int64
 	ChainID     string // "" = ChainID; the application has built-in fork overrides for some chain ids
 }
 
@@ -130,6 +133,10 @@ func (u *Universe) NewApp(g Genesis) (*app.ShutterApp, abcitypes.ResponseBeginBl
 	var fh *app.ForkHeights
 	if !g.NilForks {
 		fh = &app.ForkHeights{CheckInUpdateNew: app.ForkHeight{Enabled: g.ForkEnabled, Height: g.ForkHeight}}
+	}
+	if g.LegacyFork > 0 {
+		h := g.LegacyFork
+		fh = &app.ForkHeights{CheckInUpdate: &h}
 	}
 	gs := app.NewGenesisAppState(u.AddrsOf(g.Members), int(g.Threshold), g.InitialEon, fh)
 	b, err := amino.NewCodec().MarshalJSON(gs)
